@@ -348,8 +348,9 @@ func c09anchor(p *Prog, r *Report) {
 	}
 }
 
-func c09sign(p *Prog, r *Report) {
-	const rule = "C09.sign"
+func c09sign(p *Prog, r *Report) { signRule(p, r, "C09.sign") }
+
+func signRule(p *Prog, r *Report, rule string) {
 	r.Rule(rule, 3, "core.signBlock reachable only via core.commit; in commit it is preceded by a nil error of the proxy commit callback, by the stores of StateHash and receipts into the block, and by the membership test blockPeerSet.ByID[validator.ID()]; Block.Sign signs Body.Hash()")
 	commit := p.Func(NODE, "core", "commit")
 	sign := p.Func(NODE, "core", "signBlock")
